@@ -28,6 +28,9 @@ func (f *vSFrac) Suicide()                           {}
 func (f *vSFrac) Fetch([]seq.ID) ([][]byte, error) { panic("unused") }
 func (f *vSFrac) Search(p processor.SearchParams) (*seq.QPR, error) {
 	q := &seq.QPR{}
+	if p.HistInterval > 0 {
+		q.Histogram = map[seq.MID]uint64{}
+	}
 	n := len(f.ids)
 	total := 0
 	for k := 0; k < n; k++ {
@@ -39,6 +42,9 @@ func (f *vSFrac) Search(p processor.SearchParams) (*seq.QPR, error) {
 			total++
 			if len(q.IDs) < p.Limit {
 				q.IDs = append(q.IDs, seq.IDSource{ID: id})
+			}
+			if p.HistInterval > 0 {
+				q.Histogram[id.MID-id.MID%seq.MID(p.HistInterval)]++
 			}
 		}
 	}
@@ -95,9 +101,13 @@ func VerifSplit() {
 	rt.Assume(order <= 1)
 	withTotal := rt.NondetBool()
 	perIter := rt.Choose(nf + 1)
+	hist := uint64(0)
+	if rt.Param("HIST") == 1 {
+		hist = uint64(16 * rt.Choose(2))
+	}
 
 	s := NewSearcher(2, SearcherCfg{FractionsPerIteration: perIter})
-	qpr, err := s.SearchDocs(context.Background(), list, processor.SearchParams{From: from, To: to, Limit: limit, Order: order, WithTotal: withTotal})
+	qpr, err := s.SearchDocs(context.Background(), list, processor.SearchParams{From: from, To: to, Limit: limit, Order: order, WithTotal: withTotal, HistInterval: hist})
 	rt.Assert(err == nil, "no error")
 	rt.Reach("searched")
 
@@ -123,6 +133,33 @@ func VerifSplit() {
 	}
 	if withTotal && !hasDup {
 		rt.Assert(qpr.Total == uint64(total), "same total")
+	}
+	if hist > 0 && !hasDup {
+		// every document in range counted once in the bucket of its timestamp, whatever the split
+		// (a document living in two fractions is only required to be *listed* once: repetitions can be
+		// deducted from total and histogram only among the returned ids)
+		var all []seq.ID
+		for _, id := range docs {
+			if rt.And(from <= id.MID, id.MID <= to) {
+				all = append(all, id)
+			}
+		}
+		for _, a := range all {
+			ba := a.MID - a.MID%seq.MID(hist)
+			cnt := uint64(0)
+			for _, b := range all {
+				if b.MID-b.MID%seq.MID(hist) == ba {
+					cnt++
+				}
+			}
+			rt.Assert(qpr.Histogram[ba] == cnt, "same histogram bucket as one fraction holding everything")
+		}
+		sum := uint64(0)
+		for _, v := range qpr.Histogram {
+			sum += v
+		}
+		rt.Assert(sum == uint64(len(all)), "the histogram counts every document in range once")
+		rt.Reach("histogram")
 	}
 	rt.Reach("end")
 }
